@@ -42,7 +42,7 @@ def main():
         "keys of the universe have no prefix conflicts ('n' is never a leaf); no module reads the sink '_'",
         "probabilistic modules: decision logic only, checked differentially (oracle) with deterministic distributions; sampling is torch",
     ]
-    run.build_and_audit(["TdVerif.Props.C14", "TdVerif.Props.C14Select"])
+    run.build_and_audit(["TdVerif.Props.C14", "TdVerif.Props.C14Select", "TdVerif.Props.C14Auto"])
     import c13_shapes
     c13_shapes.check(run, "C14")   # the hand-transcribed functions still have the shape that was transcribed
     if run.tier == "thorough":
